@@ -1,7 +1,7 @@
 /-
   C02 — the time-reversed solver returns a circuit that generates the target exactly.
 
-  Two layers.
+  Five parts.
   (1) Soundness of the *validator* that is applied to every circuit the real solver returns (translation validation by a verified
       checker): if `checkGenerates ne np ops adj` evaluates to `true`, then under EVERY combination of measurement outcomes the
       circuit, run by the tableau semantics proved in C07/C01, leaves the photons exactly in the graph state |G⟩ (signs included)
@@ -11,12 +11,27 @@
       every input and checked by the harness), then the recorded circuit, run from all-|0⟩ under EVERY outcome script, ends in exactly
       the signed group of `|G⟩ ⊗ |0…0⟩` — the conclusion of `validator_sound` without running the validator (`solve_sound`).
       The heart is the time-reversed-measurement lemma (`time_reversed_measurement_lemma`).
-  NOT proved: completeness (that `solve` returns and that `hfinal` holds for every graph: the theorem of Li, Economou and Barnes,
-  false on the current tree for graphs with an isolated vertex, finding D3) — `solver_complete_statement`.
+  (3) Completeness of the solver model (the theorem of Li, Economou and Barnes, for the code as written): for every simple graph on
+      at least one vertex without isolated vertex — more generally every stabilizer target none of whose qubits is a product qubit —
+      `solve` RETURNS (no assertion, no IndexError in any helper, in any round) and its final working tableau generates exactly the
+      group of |0…0⟩ (`solver_complete`), hence `solve_correct`: the returned circuit prepares |G⟩ ⊗ |0…0⟩ under every outcome script,
+      and the verified validator accepts it (`validator_accepts_solver`).  Hypothesis: `InverseCircuitComplete` (C11).
+  (4) Soundness without `hfinal` (`final_tableau_is_zero`, `solve_sound_unconditional`, `solve_returns_correct`): for every real
+      commuting target, WHENEVER the model returns its final tableau generates |0…0⟩, so whatever it returns is correct.
+      Hypothesis: `InverseCircuitEndsInZero` (C11).
+  (5) The excluded targets, exactly: every graph with an isolated vertex raises IndexError (`isolated_vertex_raises`: finding D3 as a
+      theorem about the model), the empty graph raises ValueError; `solve_returns_iff`.
+  Both hypotheses are theorems of C11 on branch deep-c11 (`STab.inverseCircuit_complete`, `STab.inverseCircuit_isZero`), discharged at merge.
 -/
 import GraphiqModel.Proofs.Check
 import GraphiqModel.Proofs.Circuit
 import GraphiqModel.Proofs.SolverSoundMain
+import GraphiqModel.Proofs.SolverCompleteMain
+import GraphiqModel.Proofs.SolverCompleteFlag
+import GraphiqModel.Proofs.SolverCompleteFinal
+import GraphiqModel.Proofs.SolverCompleteValidator
+import GraphiqModel.Proofs.SolverCompleteResources
+import GraphiqModel.Proofs.SolverCompleteWires
 namespace Graphiq.C02
 open Graphiq Graphiq.PRow Graphiq.Tab Graphiq.STab
 
@@ -58,8 +73,9 @@ theorem photons_in_graph_state (ne np : Nat) (ops : List COp) (adj : Nat → Nat
   rw [← hr]
   exact spn_gen (targetSTab np ne adj) v (by show v < np + ne; omega)
 
-/-- full statement kept visible (NOT proved: it needs completeness, Li–Economou–Barnes):
-    for every simple graph the solver returns a circuit accepted by the validator -/
+/-- statement kept visible (used by C10): for every simple graph the solver returns a circuit accepted by the validator.  As it stands it
+    is FALSE for the code and the model (graphs with an isolated vertex raise, D3 / `isolated_vertex_raises`; the empty graph raises);
+    with the hypotheses "at least one vertex, no isolated vertex" it is proved for the solver model: `validator_accepts_solver` -/
 def solver_correct_statement (solve : (np : Nat) → (Nat → Nat → Bool) → Option (Nat × List COp)) : Prop :=
   ∀ (np : Nat) (adj : Nat → Nat → Bool), (∀ i j, adj i j = adj j i) → (∀ i, adj i i = false) →
     ∃ ne ops, solve np adj = some (ne, ops) ∧ checkGenerates ne np ops adj = true
@@ -148,16 +164,161 @@ theorem solve_keeps_tableau_good (target : STab) (hg : target.Good) (s : Solver.
 /-- `rref` (echelon gauge), as the solver uses it between steps, keeps the signed stabilizer group and the `Good`-ness (all sizes) -/
 theorem rref_keeps_group (t t' : STab) (brs : List String) (hg : t.Good) (hr : t.rref = .ok (t', brs)) :
     t'.n = t.n ∧ t'.Good ∧ ∀ p, t'.Spn p ↔ t.Spn p :=
-  ⟨(STab.rref_spanEq t t' brs hg hr).1.n_eq.symm, (STab.rref_spanEq t t' brs hg hr).2,
-   fun p => ⟨(STab.rref_spanEq t t' brs hg hr).1.sup p, (STab.rref_spanEq t t' brs hg hr).1.sub p⟩⟩
+  ⟨(STab.rref_spanEq_ss t t' brs hg hr).1.n_eq.symm, (STab.rref_spanEq_ss t t' brs hg hr).2,
+   fun p => ⟨(STab.rref_spanEq_ss t t' brs hg hr).1.sup p, (STab.rref_spanEq_ss t t' brs hg hr).1.sub p⟩⟩
 
-/-- what remains unproved (completeness, Li–Economou–Barnes; false for graphs with an isolated vertex on the current tree — D3):
-    for every simple graph without isolated vertex the solver model returns and its final working tableau generates the group of |0…0⟩
-    (the driver prints this flag for every input and the harness checks it) -/
+/-! ## Completeness of the solver model (Li–Economou–Barnes) -/
+
+/-- completeness of `inverse_circuit` (property C11, proved on branch deep-c11 as `STab.inverseCircuit_complete`): on every valid
+    stabilizer tableau — real, commuting generators that are independent over GF(2) (no non-empty selection multiplies to the identity
+    string; on dependent generators `canonical_form` hits its final assertion, so `Good` alone would make the hypothesis false) — it
+    returns and reaches |0…0⟩.  The independence clause is, verbatim, C11's `STab.Indep`, so at merge the hypothesis is discharged by
+    `fun t hg hi => STab.inverseCircuit_complete t hg hi`.  It is the only hypothesis of the completeness theorems below. -/
+abbrev InverseCircuitComplete : Prop :=
+  ∀ t : STab, t.Good →
+    (∀ S : Nat → Bool, (∀ j, j < t.n → parityTo t.n (fun i => S i && (t.row i).x j) = false ∧
+        parityTo t.n (fun i => S i && (t.row i).z j) = false) → ∀ i, i < t.n → S i = false) →
+    ∃ t' c, t.inverseCircuit = .ok (t', c) ∧ t'.isZero = true
+
+/-- **completeness, full statement**: for every simple graph on at least one vertex without isolated vertex the solver model returns,
+    its final working tableau generates exactly the signed group of |0…0⟩ (`SpanEq`, what soundness consumes), and the executable test of
+    this (`sameGroup`, the hypothesis `hfinal` of `solve_sound`, printed by the driver as `zero=1` and required by the harness on every
+    input) succeeds.  `0 < np`: on the empty graph `determine_n_emitters` raises (`max` of an empty list); isolated vertices: D3. -/
 def solver_complete_statement : Prop :=
-  ∀ (np : Nat) (adj : Nat → Nat → Bool), (∀ i j, adj i j = adj j i) → (∀ i, adj i i = false) →
+  ∀ (np : Nat) (adj : Nat → Nat → Bool), 0 < np → (∀ i j, adj i j = adj j i) → (∀ i, adj i i = false) →
     (∀ i, i < np → ∃ j, j < np ∧ adj i j = true) →
-    ∃ s, Solver.solve (graphSTab np adj) = .ok s ∧ s.t.sameGroup (STab.zero (np + s.ne)) = true
+    ∃ s, Solver.solve (graphSTab np adj) = .ok s ∧ SpanEq s.t (STab.zero (np + s.ne)) ∧
+      s.t.sameGroup (STab.zero (np + s.ne)) = true
+
+/-- **Completeness of the time-reversed solver** (every graph without isolated vertex, every size), under completeness of
+    `inverse_circuit`: no helper raises in any round, both assertions after the loop hold, the replay of the inverse circuit is
+    accepted, and the final tableau generates the group of |0…0⟩ — semantically and as the executable flag -/
+theorem solver_complete (hinv : InverseCircuitComplete) : solver_complete_statement := by
+  intro np adj hnp hsym hirr hiso
+  obtain ⟨s, hs, hse⟩ := Solver.solve_complete_graph hinv np adj hnp hsym hirr hiso
+  have inv := Solver.solve_inv (graphSTab np adj) (Solver.graphSTab_good np adj hsym) s hs
+  exact ⟨s, hs, hse, Solver.sameGroup_zero _ s.t inv.n_eq inv.good hse⟩
+
+/-- **the flag `zero=1` is exact**: a real commuting tableau passes the driver's test `sameGroup · (zero n)` iff it generates the signed
+    group of |0…0⟩ (`sameGroup_sound` and its converse on this group, proved through the Z loop of `canonical_form`) -/
+theorem final_flag_exact (n : Nat) (t : STab) (hn : t.n = n) (hg : t.Good) :
+    t.sameGroup (STab.zero n) = true ↔ SpanEq t (STab.zero n) :=
+  ⟨sameGroup_sound t _, Solver.sameGroup_zero n t hn hg⟩
+
+/-- the same for **any stabilizer target**: real, commuting, independent generators on at least one qubit, no qubit of which is a
+    product qubit (`NotProd`: no group element is supported on that qubit alone) -/
+theorem solver_complete_stabilizer (hinv : InverseCircuitComplete) (target : STab) (hg : target.Good) (hi : target.LinIndep)
+    (hn : 0 < target.n) (hnp : ∀ p, p < target.n → target.NotProd p) :
+    ∃ s, Solver.solve target = .ok s ∧ SpanEq s.t (STab.zero (target.n + s.ne)) ∧
+      s.t.sameGroup (STab.zero (target.n + s.ne)) = true := by
+  obtain ⟨s, hs, hse⟩ := Solver.solve_complete_stabilizer hinv target hg hi hn hnp
+  have inv := Solver.solve_inv target hg s hs
+  exact ⟨s, hs, hse, Solver.sameGroup_zero _ s.t inv.n_eq inv.good hse⟩
+
+/-- **The solver is correct** (property C02 for the model, every graph without isolated vertex, every size, every outcome script):
+    `solve` returns a state whose recorded circuit, run from all-|0⟩ by the tableau semantics under EVERY outcome script, ends with the
+    photons exactly in |G⟩ (signs included) and every emitter in |0⟩ — `solve_sound` with its hypothesis discharged by `solver_complete` -/
+theorem solve_correct (hinv : InverseCircuitComplete) (np : Nat) (adj : Nat → Nat → Bool) (hnp : 0 < np)
+    (hsym : ∀ i j, adj i j = adj j i) (hirr : ∀ i, adj i i = false) (hiso : ∀ i, i < np → ∃ j, j < np ∧ adj i j = true) :
+    ∃ s, Solver.solve (graphSTab np adj) = .ok s ∧
+      ∀ script : List Bool, ∃ rs, stabRun s.ne np .prob script s.cops = some rs ∧ rs.t.Valid ∧
+        (STab.ofTab rs.t).n = np + s.ne ∧ ∀ p, (STab.ofTab rs.t).Spn p ↔ (targetSTab np s.ne adj).Spn p := by
+  obtain ⟨s, hs, hfinal, _⟩ := solver_complete hinv np adj hnp hsym hirr hiso
+  refine ⟨s, hs, fun script => ?_⟩
+  obtain ⟨rs, h1, h2, h3⟩ := Solver.solve_run (graphSTab np adj) (Solver.graphSTab_good np adj hsym) s hs hfinal script
+  have h4 := h3.trans (Solver.withEmitters_graph np s.ne adj)
+  exact ⟨rs, h1, h2, h4.n_eq, fun p => ⟨h4.sub p, h4.sup p⟩⟩
+
+/-- **correctness for any stabilizer target** without product qubit: the returned circuit prepares exactly `target ⊗ |0…0⟩` (signed group)
+    under every outcome script -/
+theorem solve_correct_stabilizer (hinv : InverseCircuitComplete) (target : STab) (hg : target.Good) (hi : target.LinIndep)
+    (hn : 0 < target.n) (hnp : ∀ p, p < target.n → target.NotProd p) :
+    ∃ s, Solver.solve target = .ok s ∧
+      ∀ script : List Bool, ∃ rs, stabRun s.ne target.n .prob script s.cops = some rs ∧ rs.t.Valid ∧
+        (STab.ofTab rs.t).n = target.n + s.ne ∧ ∀ p, (STab.ofTab rs.t).Spn p ↔ (Solver.withEmitters target s.ne).Spn p := by
+  obtain ⟨s, hs, hfinal, _⟩ := solver_complete_stabilizer hinv target hg hi hn hnp
+  refine ⟨s, hs, fun script => ?_⟩
+  obtain ⟨rs, h1, h2, h3⟩ := Solver.solve_run target hg s hs hfinal script
+  exact ⟨rs, h1, h2, h3.n_eq.trans (Solver.withEmitters_n target s.ne), fun p => ⟨h3.sub p, h3.sup p⟩⟩
+
+/-! ### The steps of the completeness argument (sub-goals 1–4), each a theorem of its own -/
+
+/-- the loop invariant before the round that absorbs photon `m - 1` (`Solver.RInv`): real commuting independent generators on
+    `np + ne` qubits; photons `m..np-1` absorbed (column literal: one generator is `+Z_q`, no other acts on `q`); no remaining photon is a
+    product qubit; every cut left of the photon to be absorbed has height at most `ne` -/
+abbrev LoopInvariant (np ne m : Nat) (s : Solver.St) : Prop := Solver.RInv (fun _ => False) np ne m s
+
+/-- the invariant holds when the loop starts (`ne = determine_n_emitters(target)`) -/
+theorem loop_invariant_initially (target : STab) (hg : target.Good) (hi : target.LinIndep) (ne : Nat)
+    (hdet : Solver.determineNEmitters target = .ok ne) (hnp : ∀ p, p < target.n → target.NotProd p) :
+    LoopInvariant target.n ne target.n { np := target.n, ne := ne, t := Solver.withEmitters target ne, circ := [] } :=
+  Solver.rinv_init (fun _ => False) target hg hi ne hdet (fun p hp _ => hnp p hp) (fun _ _ h => h.elim)
+
+/-- **sub-goal 1a — the row helpers never raise**: `_add_one_qubit_gate` (because `simplify_local_clifford` is total, C20), the loop
+    over the emitters with `_change_pauli_type`, the sign repair -/
+theorem helpers_return (s : Solver.St) (gs : List Cliff.Gen) (q g e : Nat) (skip : Bool) (hn : s.t.n = s.np + s.ne) (he : e < s.ne) :
+    (∃ s', Solver.addOneQubit s gs q = .ok s') ∧ (∃ s', Solver.allEmittersToZ s g skip = .ok s') ∧
+    (∃ s', Solver.fixSign s g e = .ok s') :=
+  ⟨Solver.addOneQubit_ok s gs q, (Solver.allEmittersToZ_ok s g skip hn).imp fun _ h => h.1,
+   (Solver.fixSign_ok s g e hn he).imp fun _ h => h.1⟩
+
+/-- **sub-goal 1b — `assert not np.any(x_matrix[generator])` of `_transform_generator_emitters` holds** as soon as the generator has no
+    X/Y on any qubit -/
+theorem transform_generator_emitters_returns (s : Solver.St) (g e : Nat) (hn : s.t.n = s.np + s.ne) (he : e < s.ne)
+    (hx : ∀ j, j < s.t.n → (s.t.row g).x j = false) : ∃ s', Solver.transformGeneratorEmitters s g e = .ok s' :=
+  (Solver.transformGeneratorEmitters_ok s g e hn he hx).imp fun _ h => h.1
+
+/-- **sub-goal 2a — a free emitter exists when the height drops** (`assert len(possible_generators) > 0` never fires): in the echelon
+    gauge, with the photons right of `p` absorbed and `h(p) < ne`, some generator acts on no photon -/
+theorem free_emitter_exists (np ne p : Nat) (t : STab) (piv : Nat → Nat) (he : STab.Echelon t piv) (hn : t.n = np + ne) (hp : p < np)
+    (hlit : ∀ q, p + 1 ≤ q → q < np → t.Lit q) (hl : List Int) (hh : t.heightFuncList = .ok hl)
+    (hcond : hl.getD p 0 < (ne : Int)) : ∃ i, i < t.n ∧ ∀ j, j < np → t.ptype i j = 0 :=
+  Solver.free_emitter_exists np ne p t piv he hn hp hlit hl hh hcond
+
+/-- **sub-goal 2b — the time-reversed measurement returns** when some generator acts on no photon and no generator is the identity;
+    it applies gates on the emitters reaching a tableau with `+Z` on the chosen emitter, then `H`, `CNOT(emitter → photon)` -/
+theorem time_reversed_measurement_returns (s : Solver.St) (photon : Nat) (hn : s.t.n = s.np + s.ne) (hg : s.t.Good)
+    (hex : ∃ i, i < s.t.n ∧ ∀ j, j < s.np → s.t.ptype i j = 0)
+    (hnz : ∀ i, i < s.t.n → ∃ j, j < s.t.n ∧ s.t.ptype i j ≠ 0) :
+    ∃ s', Solver.timeReversedMeasurement s photon = .ok s' := by
+  obtain ⟨s', _, _, h, _⟩ := Solver.timeReversedMeasurement_ok s photon hn hg hex hnz
+  exact ⟨s', h⟩
+
+/-- **sub-goal 2c — the generator starting at photon `p` acts on an emitter** when `p` is not a product qubit and the photons right of
+    `p` are absorbed (so `emitter_indices[0]` exists), and it is trivial on the absorbed photons -/
+theorem generator_at_photon_acts_on_emitter (np p : Nat) (t : STab) (hlit : ∀ q, p + 1 ≤ q → q < np → t.Lit q)
+    (hnp : t.NotProd p) (i : Nat) (hi : i < t.n) (hlm : t.leftmost i = some p) :
+    (∃ c, np ≤ c ∧ c < t.n ∧ t.ptype i c ≠ 0) ∧ ∀ j, p < j → j < np → t.ptype i j = 0 :=
+  ⟨(Solver.absorb_hyps np p t hlit hnp).1 i hi hlm, (Solver.absorb_hyps np p t hlit hnp).2 i hi hlm⟩
+
+/-- **sub-goal 3 — every round returns and re-establishes the invariant**; after it photon `p` is disentangled in |0⟩ (column literal) -/
+theorem round_returns (np ne p : Nat) (hp : p < np) (s : Solver.St) (h : LoopInvariant np ne (p + 1) s) :
+    ∃ s', Solver.photonRound s (p + 1) = .ok s' ∧ LoopInvariant np ne p s' ∧ s'.t.Lit p := by
+  obtain ⟨s', h1, h2, _⟩ := Solver.round_ok (fun _ => False) np ne p hp (fun f => f) s h
+  exact ⟨s', h1, h2, h2.lit p (Nat.le_refl _) hp⟩
+
+/-- **the main loop returns** with every photon absorbed -/
+theorem photon_loop_returns (np ne m : Nat) (s : Solver.St) (h : LoopInvariant np ne m s) :
+    ∃ s', Solver.photonLoop s ((List.range m).reverse.map (· + 1)) = .ok s' ∧ LoopInvariant np ne 0 s' :=
+  Solver.photonLoop_ok (fun _ => False) np ne m (fun _ _ f => f) s h
+
+/-- **sub-goal 4a — after the last `rref` generator `q` is exactly `+Z_q` for every photon** (the two assertions of `solve`) -/
+theorem photons_on_the_diagonal (t : STab) (piv : Nat → Nat) (he : STab.Echelon t piv) (np : Nat) (hnp : np ≤ t.n)
+    (hlit : ∀ q, q < np → t.Lit q) : ∀ q, q < np → PRow.EqOn t.n (t.row q) (PRow.Zq q) :=
+  Solver.echelon_lit_rows t piv he np hnp hlit
+
+/-- **sub-goal 4b — `inverse_circuit` emits only gates the replay accepts** (H, P, X anywhere; CNOT, CZ between emitters) when every
+    photon column is literal -/
+theorem inverse_circuit_touches_emitters_only (t t' : STab) (circ : List Gate) (np : Nat) (hnp : np ≤ t.n) (hg : t.Good)
+    (hlit : ∀ q, q < np → t.Lit q) (h : t.inverseCircuit = .ok (t', circ)) : ∀ g, g ∈ circ → STab.Gate.okFor np g :=
+  STab.inverseCircuit_gates_ok t t' circ np hnp hg STab.canonicalForm_lit hlit h
+
+/-- **`rref` returns on every independent generating set, in echelon form** (its fuel `n + 1` suffices, its assertions never fire),
+    and keeps literal columns literal -/
+theorem rref_returns (t : STab) (hi : t.LinIndep) :
+    ∃ t' brs piv, t.rref = .ok (t', brs) ∧ STab.Echelon t' piv ∧ ∀ q, q < t.n → t.Lit q → t'.Lit q := by
+  obtain ⟨t', brs, piv, h1, h2⟩ := STab.rref_ok_of_indep t hi
+  exact ⟨t', brs, piv, h1, h2, fun q hq hl => STab.rref_lit t t' brs q hq hl h1⟩
 
 /-! ### Non-vacuity: the 3-photon linear cluster generated by one emitter (H e; CNOT e→p2; H e; CNOT e→p1; H e; CNOT e→p0; H p0; H e; measure-and-reset is not needed) -/
 def lin3ops : List COp :=
@@ -192,5 +353,268 @@ example : solveOk 4 sq4adj 2 2 = true := by decide +kernel
 example : (STab.zero 2).Spn (PRow.Zq (1 + 0)) := spn_gen (STab.zero 2) 1 (by decide)
 example : (match stabRun 1 1 .prob [true] [.gate1 .H ⟨.e, 0⟩, .cnot ⟨.e, 0⟩ ⟨.p, 0⟩, .mcr ⟨.e, 0⟩ ⟨.p, 0⟩ 0] with
     | some rs => (STab.ofTab rs.t).sameGroup (STab.zero 2) | none => false) = true := by decide +kernel
+
+/-! ### Resources of the returned circuit (Li–Economou–Barnes) -/
+
+/-- **resource theorem**: on every stabilizer target without product qubit the solver model returns a circuit with exactly one emitter
+    measurement (`MeasurementCNOTandReset`) per descent `h(p) < h(p-1)` of the target's height function (`Solver.descents`), exactly one
+    emission per photon, and `max h` emitters.  (The test `height_list[j] < height_list[j-1]` of round `j` is evaluated on the working
+    tableau, but the cuts left of the current photon are never touched, so it sees the target's heights.) -/
+theorem measurement_count_stabilizer (hinv : InverseCircuitComplete) (target : STab) (hg : target.Good) (hi : target.LinIndep)
+    (hn : 0 < target.n) (hnp : ∀ p, p < target.n → target.NotProd p) :
+    ∃ s hl, Solver.solve target = .ok s ∧ target.heightFuncList = .ok hl ∧
+      Solver.mcrCount s.circ = Solver.descents hl target.n ∧
+      (∀ p, Solver.emitCount p s.circ = if p < target.n then 1 else 0) ∧ Solver.determineNEmitters target = .ok s.ne := by
+  obtain ⟨s, hl, hs, hh, hc⟩ := Solver.solve_mcr_count hinv target hg hi hn hnp
+  exact ⟨s, hl, hs, hh, hc, (solve_structure target s hs).2.1, (solve_structure target s hs).2.2⟩
+
+/-- the same on graphs (at least one vertex, no isolated vertex) -/
+theorem measurement_count (hinv : InverseCircuitComplete) (np : Nat) (adj : Nat → Nat → Bool) (hnp : 0 < np)
+    (hsym : ∀ i j, adj i j = adj j i) (hirr : ∀ i, adj i i = false) (hiso : ∀ i, i < np → ∃ j, j < np ∧ adj i j = true) :
+    ∃ s hl, Solver.solve (graphSTab np adj) = .ok s ∧ (graphSTab np adj).heightFuncList = .ok hl ∧
+      Solver.mcrCount s.circ = Solver.descents hl np ∧
+      (∀ p, Solver.emitCount p s.circ = if p < np then 1 else 0) ∧ Solver.determineNEmitters (graphSTab np adj) = .ok s.ne :=
+  measurement_count_stabilizer hinv (graphSTab np adj) (Solver.graphSTab_good np adj hsym) (graph_indep np adj) hnp
+    (fun p hp => Solver.graph_notProd np adj hirr p hp (hiso p hp))
+
+/-- the linear cluster 0–1–2 has heights `1, 1, 0`: one descent, and the model's circuit has one measure-and-reset (`solveOk 3 lin3adj 1 1`
+    above); the 4-cycle has heights `1, 2, 1, 0`: two descents, two measurements (`solveOk 4 sq4adj 2 2`) -/
+example : (graphSTab 3 lin3adj).heightFuncList = .ok [1, 1, 0] ∧ Solver.descents [1, 1, 0] 3 = 1 := by
+  constructor
+  · decide +kernel
+  · decide
+example : (graphSTab 4 sq4adj).heightFuncList = .ok [1, 2, 1, 0] ∧ Solver.descents [1, 2, 1, 0] 4 = 2 := by
+  constructor
+  · decide +kernel
+  · decide
+
+/-- **emission structure** (the constraint of C04 for this solver): in the returned circuit the first operation in time order on every
+    photon wire is the emission CNOT from one of the circuit's emitters — no gate, no measure-and-reset touches a photon before it is
+    emitted (`Solver.firstOn np p c` = first operation of the time-ordered list `c` that touches global qubit `p`) -/
+theorem emission_first_stabilizer (hinv : InverseCircuitComplete) (target : STab) (hg : target.Good) (hi : target.LinIndep)
+    (hn : 0 < target.n) (hnp : ∀ p, p < target.n → target.NotProd p) :
+    ∃ s, Solver.solve target = .ok s ∧
+      ∀ p, p < target.n → ∃ e, e < s.ne ∧ Solver.firstOn target.n p s.circ = some (.emit e p) :=
+  Solver.solve_emission_first hinv target hg hi hn hnp
+
+theorem emission_first (hinv : InverseCircuitComplete) (np : Nat) (adj : Nat → Nat → Bool) (hnp : 0 < np)
+    (hsym : ∀ i j, adj i j = adj j i) (hirr : ∀ i, adj i i = false) (hiso : ∀ i, i < np → ∃ j, j < np ∧ adj i j = true) :
+    ∃ s, Solver.solve (graphSTab np adj) = .ok s ∧
+      ∀ p, p < np → ∃ e, e < s.ne ∧ Solver.firstOn np p s.circ = some (.emit e p) :=
+  emission_first_stabilizer hinv (graphSTab np adj) (Solver.graphSTab_good np adj hsym) (graph_indep np adj) hnp
+    (fun p hp => Solver.graph_notProd np adj hirr p hp (hiso p hp))
+
+/-- **every operation of the recorded circuit acts on registers of the circuit** (any real commuting target, whenever the model returns):
+    wrappers on a qubit `< np + ne`, emissions and measure-and-resets from an emitter `< ne` onto a photon `< np`, emitter–emitter CNOTs
+    between two different emitters `< ne` -/
+theorem ops_well_formed (target : STab) (hg : target.Good) (s : Solver.St) (h : Solver.solve target = .ok s) :
+    ∀ o, o ∈ s.circ → o.WF target.n s.ne :=
+  Solver.solve_ops_wf target hg s h
+
+/-- on the linear cluster the model's circuit indeed starts every photon wire with its emission (kernel evaluation) -/
+example : (match Solver.solve (graphSTab 3 lin3adj) with
+    | .ok s => (List.range 3).all fun p => match Solver.firstOn 3 p s.circ with | some (.emit _ q) => q == p | _ => false
+    | .error _ => false) = true := by decide +kernel
+
+/-! ### The excluded targets: the hypotheses of `solver_complete` are sharp (finding D3 as a theorem about the model) -/
+
+/-- **every graph with an isolated vertex makes the solver model raise IndexError** (all sizes; finding D3: the generator `X_p` of the
+    isolated photon acts on no emitter, `emitter_indices[0]` fails in `_add_photon_absorption` — every earlier round returns) -/
+theorem isolated_vertex_raises (np : Nat) (adj : Nat → Nat → Bool) (hsym : ∀ i j, adj i j = adj j i) (hirr : ∀ i, adj i i = false)
+    (hex : ∃ p, p < np ∧ ∀ j, j < np → adj p j = false) : Solver.solve (graphSTab np adj) = .error .index :=
+  Solver.solve_isolated_raises_graph np adj hsym hirr hex
+
+/-- the empty graph raises ValueError (`max` of an empty height list) -/
+theorem empty_graph_raises (adj : Nat → Nat → Bool) : Solver.solve (graphSTab 0 adj) = .error .value :=
+  Solver.solve_empty_raises adj
+
+/-- **exact characterisation**: on simple graphs the solver model returns iff the graph is non-empty and has no isolated vertex -/
+theorem solve_returns_iff (hinv : InverseCircuitComplete) (np : Nat) (adj : Nat → Nat → Bool) (hsym : ∀ i j, adj i j = adj j i)
+    (hirr : ∀ i, adj i i = false) :
+    (∃ s, Solver.solve (graphSTab np adj) = .ok s) ↔ (0 < np ∧ ∀ i, i < np → ∃ j, j < np ∧ adj i j = true) := by
+  constructor
+  · rintro ⟨s, hs⟩
+    refine ⟨?_, ?_⟩
+    · apply Nat.pos_of_ne_zero
+      intro e
+      subst e
+      rw [empty_graph_raises adj] at hs; cases hs
+    · intro i hi
+      apply Classical.byContradiction
+      intro hno
+      have hiso : ∀ j, j < np → adj i j = false := by
+        intro j hj
+        cases h : adj i j
+        · rfl
+        · exact absurd ⟨j, hj, h⟩ hno
+      rw [isolated_vertex_raises np adj hsym hirr ⟨i, hi, hiso⟩] at hs; cases hs
+  · rintro ⟨hnp, hiso⟩
+    obtain ⟨s, hs, _⟩ := solver_complete hinv np adj hnp hsym hirr hiso
+    exact ⟨s, hs⟩
+
+/-! ### Soundness without `hfinal`: whatever the solver model returns is correct -/
+
+/-- what `inverse_circuit` returns is the all-|0⟩ tableau (property C11, proved on branch deep-c11 as `STab.inverseCircuit_isZero`; after
+    the repair of D42 the synthesis cannot stop anywhere else).  Hypothesis of the three theorems below; discharged at merge by
+    `fun t t' c hg h => STab.inverseCircuit_isZero t t' c hg h`. -/
+abbrev InverseCircuitEndsInZero : Prop :=
+  ∀ (t t' : STab) (c : List Gate), t.Good → t.inverseCircuit = .ok (t', c) → t'.isZero = true
+
+/-- **`hfinal` holds whenever the solver model returns** (every real commuting target, no assumption on its shape): the final working
+    tableau generates exactly the signed group of |0…0⟩, and the driver's flag `zero=1` is set -/
+theorem final_tableau_is_zero (hzero : InverseCircuitEndsInZero) (target : STab) (hg : target.Good) (s : Solver.St)
+    (h : Solver.solve target = .ok s) :
+    SpanEq s.t (STab.zero (target.n + s.ne)) ∧ s.t.sameGroup (STab.zero (target.n + s.ne)) = true := by
+  have hse := Solver.solve_final_zero hzero target hg s h
+  have inv := Solver.solve_inv target hg s h
+  exact ⟨hse, Solver.sameGroup_zero _ s.t inv.n_eq inv.good hse⟩
+
+/-- **Soundness of the solver model without `hfinal`, any stabilizer target**: whenever `solve target` returns, the recorded circuit,
+    run from all-|0⟩ under EVERY outcome script, succeeds, stays valid and ends in exactly the signed group of `target ⊗ |0…0⟩` -/
+theorem solve_sound_unconditional (hzero : InverseCircuitEndsInZero) (target : STab) (hg : target.Good) (s : Solver.St)
+    (h : Solver.solve target = .ok s) (script : List Bool) :
+    ∃ rs, stabRun s.ne target.n .prob script s.cops = some rs ∧ rs.t.Valid ∧
+      (STab.ofTab rs.t).n = target.n + s.ne ∧
+      ∀ p, (STab.ofTab rs.t).Spn p ↔ (Solver.withEmitters target s.ne).Spn p :=
+  solve_sound_stabilizer target hg s h (final_tableau_is_zero hzero target hg s h).2 script
+
+/-- **whatever the solver model returns on a graph is correct** (every symmetric adjacency, every size, every outcome script): if
+    `solve` returns, the recorded circuit prepares |G⟩ ⊗ |0…0⟩ exactly.  This is `solve_sound` with its hypothesis `hfinal` removed; it is
+    the form in which the alternate-target solver (C10 `solve_result_correct`, hypothesis `hsolver`) consumes the time-reversed solver. -/
+theorem solve_returns_correct (hzero : InverseCircuitEndsInZero) (np : Nat) (adj : Nat → Nat → Bool)
+    (hsym : ∀ i j, adj i j = adj j i) (s : Solver.St) (h : Solver.solve (graphSTab np adj) = .ok s) :
+    ∀ script : List Bool, ∃ rs, stabRun s.ne np .prob script s.cops = some rs ∧ rs.t.Valid ∧
+      (STab.ofTab rs.t).n = np + s.ne ∧ ∀ p, (STab.ofTab rs.t).Spn p ↔ (targetSTab np s.ne adj).Spn p :=
+  solve_sound np adj hsym s h
+    (final_tableau_is_zero hzero (graphSTab np adj) (Solver.graphSTab_good np adj hsym) s h).2
+
+/-- the time-reversed solver model as a function from graphs to circuits (number of emitters, operation list in time order) — the shape
+    in which C10 (`Alt.Parts.solver`) and `solver_correct_statement` use a solver -/
+def modelSolver (np : Nat) (adj : Nat → Nat → Bool) : Option (Nat × List COp) :=
+  match Solver.solve (graphSTab np adj) with
+  | .ok s => some (s.ne, s.cops)
+  | .error _ => none
+
+/-- **every circuit the model solver returns generates its target** under every outcome script (the statement `Alt.Generates` of C10,
+    for scripts of any length) -/
+theorem model_solver_generates (hzero : InverseCircuitEndsInZero) (np : Nat) (adj : Nat → Nat → Bool)
+    (hsym : ∀ i j, adj i j = adj j i) (ne : Nat) (ops : List COp) (h : modelSolver np adj = some (ne, ops)) :
+    ∀ script : List Bool, ∃ rs, stabRun ne np .prob script ops = some rs ∧ SpanEq (STab.ofTab rs.t) (targetSTab np ne adj) := by
+  intro script
+  unfold modelSolver at h
+  cases hs : Solver.solve (graphSTab np adj) with
+  | error e => rw [hs] at h; cases h
+  | ok s =>
+    rw [hs] at h
+    simp only [Option.some.injEq, Prod.mk.injEq] at h
+    obtain ⟨rfl, rfl⟩ := h
+    obtain ⟨rs, h1, _, h3, h4⟩ := solve_returns_correct hzero np adj hsym s hs script
+    exact ⟨rs, h1, h3, fun p hp => (h4 p).1 hp, fun p hp => (h4 p).2 hp⟩
+
+/-- **the verified validator accepts the circuit of the model solver** on every graph on ≥ 1 vertex without isolated vertex (the corrected
+    form of `solver_correct_statement`): the solver returns and `checkGenerates` — every outcome script run, final group compared with the
+    target through canonical forms — evaluates to `true` (completeness of `sameGroup` on valid tableaux, via C05's `canon_unique`) -/
+theorem validator_accepts_solver (hinv : InverseCircuitComplete) (np : Nat) (adj : Nat → Nat → Bool) (hnp : 0 < np)
+    (hsym : ∀ i j, adj i j = adj j i) (hirr : ∀ i, adj i i = false) (hiso : ∀ i, i < np → ∃ j, j < np ∧ adj i j = true) :
+    ∃ ne ops, modelSolver np adj = some (ne, ops) ∧ checkGenerates ne np ops adj = true := by
+  obtain ⟨s, hs, hc⟩ := Solver.checkGenerates_solver hinv np adj hnp hsym hirr hiso
+  exact ⟨s.ne, s.cops, by unfold modelSolver; rw [hs], hc⟩
+
+/-- and the model solver returns on every graph on ≥ 1 vertex without isolated vertex -/
+theorem model_solver_returns (hinv : InverseCircuitComplete) (np : Nat) (adj : Nat → Nat → Bool) (hnp : 0 < np)
+    (hsym : ∀ i j, adj i j = adj j i) (hirr : ∀ i, adj i i = false) (hiso : ∀ i, i < np → ∃ j, j < np ∧ adj i j = true) :
+    ∃ ne ops, modelSolver np adj = some (ne, ops) := by
+  obtain ⟨s, hs, _⟩ := solver_complete hinv np adj hnp hsym hirr hiso
+  exact ⟨s.ne, s.cops, by unfold modelSolver; rw [hs]⟩
+
+/-- the smallest instances of D3 evaluate as the theorem says: K1, 2·K1, K2 + K1 -/
+example : (match Solver.solve (graphSTab 1 fun _ _ => false) with | .error .index => true | _ => false) = true := by
+  decide +kernel
+example : (match Solver.solve (graphSTab 3 fun i j => (i == 0 && j == 1) || (i == 1 && j == 0)) with
+    | .error .index => true | _ => false) = true := by decide +kernel
+
+/-! ### Non-vacuity of the completeness theorems -/
+
+/-- the linear cluster and the 4-cycle meet the hypotheses of `solver_complete` / `solve_correct` -/
+example : (∀ i, i < 3 → ∃ j, j < 3 ∧ lin3adj i j = true) ∧ ∀ i, lin3adj i i = false := by
+  refine ⟨fun i hi => ?_, fun i => ?_⟩
+  · have : i = 0 ∨ i = 1 ∨ i = 2 := by omega
+    rcases this with e | e | e <;> subst e
+    · exact ⟨1, by decide, by decide⟩
+    · exact ⟨0, by decide, by decide⟩
+    · exact ⟨1, by decide, by decide⟩
+  · simp only [lin3adj]
+    cases h1 : (i == 0) <;> cases h2 : (i == 1) <;> cases h3 : (i == 2) <;> simp_all
+
+/-- the instance of `InverseCircuitComplete` that the linear cluster uses holds: `inverse_circuit` reaches |0…0⟩ on the final
+    echelon tableau of the run (kernel evaluation) -/
+example : (match Solver.photonLoop { np := 3, ne := 1, t := Solver.withEmitters (graphSTab 3 lin3adj) 1, circ := [] } [3, 2, 1] with
+    | .ok s1 => (match s1.t.rref with
+      | .ok (t2, _) => (match t2.inverseCircuit with | .ok (t', _) => t'.isZero | .error _ => false)
+      | .error _ => false)
+    | .error _ => false) = true := by decide +kernel
+
+/-- a stabilizer target that is not a graph state meets the hypotheses of `solver_complete_stabilizer`: the GHZ state `⟨XXX, ZZI, IZZ⟩`
+    (real, commuting; independence and "no product qubit" are what the theorem asks) — the model solver returns on it -/
+def ghz3 : STab :=
+  { n := 3, row := fun i =>
+      if i = 0 then ⟨fun j => decide (j < 3), fun _ => false, false, false⟩
+      else if i = 1 then ⟨fun _ => false, fun j => decide (j = 0 ∨ j = 1), false, false⟩
+      else ⟨fun _ => false, fun j => decide (j = 1 ∨ j = 2), false, false⟩ }
+example : ghz3.isGood = true := by decide
+example : (match Solver.solve ghz3 with | .ok s => s.t.sameGroup (STab.zero (3 + s.ne)) | .error _ => false) = true := by
+  decide +kernel
+
+theorem ghz3_indep : ghz3.LinIndep :=
+  STab.heightFuncList_ok_indep ghz3 [1, 1, 0] (by decide +kernel)
+
+theorem ghz3_notProd (p : Nat) (hp : p < ghz3.n) : ghz3.NotProd p := by
+  intro a ha hs
+  obtain ⟨S, hS⟩ := Solver.spn_combo ghz3 a ha
+  have hn : ghz3.n = 3 := rfl
+  rw [hn] at hS hs hp
+  have h0 := hS 0 (by omega)
+  have h1 := hS 1 (by omega)
+  have h2 := hS 2 (by omega)
+  simp only [STab.comboX, STab.comboZ, parityTo, ghz3] at h0 h1 h2
+  have : p = 0 ∨ p = 1 ∨ p = 2 := by omega
+  rcases this with e | e | e <;> subst e
+  · have a1 := hs 1 (by omega) (by omega)
+    have a2 := hs 2 (by omega) (by omega)
+    revert h0 h1 h2
+    rw [a1.1, a1.2, a2.1, a2.2]
+    cases S 0 <;> cases S 1 <;> cases S 2 <;> simp
+  · have a1 := hs 0 (by omega) (by omega)
+    have a2 := hs 2 (by omega) (by omega)
+    revert h0 h1 h2
+    rw [a1.1, a1.2, a2.1, a2.2]
+    cases S 0 <;> cases S 1 <;> cases S 2 <;> simp
+  · have a1 := hs 0 (by omega) (by omega)
+    have a2 := hs 1 (by omega) (by omega)
+    revert h0 h1 h2
+    rw [a1.1, a1.2, a2.1, a2.2]
+    cases S 0 <;> cases S 1 <;> cases S 2 <;> simp
+
+/-- all hypotheses of `solver_complete_stabilizer` (other than `hinv`) are met by the GHZ state, which is not a graph-state tableau -/
+example (hinv : InverseCircuitComplete) : ∃ s, Solver.solve ghz3 = .ok s ∧ SpanEq s.t (STab.zero (ghz3.n + s.ne)) ∧
+    s.t.sameGroup (STab.zero (ghz3.n + s.ne)) = true :=
+  solver_complete_stabilizer hinv ghz3 (isGood_good ghz3 (by decide)) ghz3_indep (by decide) ghz3_notProd
+
+/-- the loop invariant is met at the start of the loop for the 3-photon linear cluster with its one emitter (hypothesis of
+    `round_returns` / `photon_loop_returns`) -/
+example : LoopInvariant 3 1 3 { np := 3, ne := 1, t := Solver.withEmitters (graphSTab 3 lin3adj) 1, circ := [] } :=
+  loop_invariant_initially (graphSTab 3 lin3adj) (Solver.graphSTab_good 3 lin3adj (by
+      intro i j; simp only [lin3adj]; cases h1 : (i == 0) <;> cases h2 : (j == 1) <;> cases h3 : (i == 1) <;> cases h4 : (j == 0) <;>
+        cases h5 : (j == 2) <;> cases h6 : (i == 2) <;> rfl))
+    (graph_indep 3 lin3adj) 1 (by decide +kernel)
+    (fun p hp => Solver.graph_notProd 3 lin3adj (by
+        intro i; simp only [lin3adj]
+        cases h1 : (i == 0) <;> cases h2 : (i == 1) <;> cases h3 : (i == 2) <;> simp_all) p hp (by
+        have hp' : p < 3 := hp
+        have : p = 0 ∨ p = 1 ∨ p = 2 := by omega
+        rcases this with e | e | e <;> subst e
+        · exact ⟨1, by decide, by decide⟩
+        · exact ⟨0, by decide, by decide⟩
+        · exact ⟨1, by decide, by decide⟩))
 
 end Graphiq.C02
